@@ -2,6 +2,7 @@ package main
 
 import (
 	"fmt"
+	"golang.org/x/tools/go/ssa"
 	"os"
 	"sort"
 	"strings"
@@ -119,6 +120,42 @@ func main() {
 			}
 		}
 		fmt.Println("total", tot, "undischarged", bad)
+		return
+	case "apimust":
+		p, err := Load(nil, nil)
+		if err != nil {
+			os.Exit(2)
+		}
+		n := 0
+		for _, fn := range p.ModFns {
+			if !strings.HasPrefix(FnName(fn), os.Args[2]) {
+				continue
+			}
+			ff := p.Facts(fn)
+			for _, b := range fn.Blocks {
+				for _, in := range b.Instrs {
+					ci, ok := in.(ssa.CallInstruction)
+					if !ok {
+						continue
+					}
+					cal := ci.Common().StaticCallee()
+					if cal == nil || !InModule(cal) || cal.Blocks == nil {
+						continue
+					}
+					ps := p.explicitPanics(cal)
+					if len(ps) == 0 || p.hasRecover(cal) {
+						continue
+					}
+					n++
+					var args []string
+					for _, a := range ci.Common().Args {
+						args = append(args, trunc(ff.Term(a), 50))
+					}
+					fmt.Printf("%s: %s -> %s(%s)  [%d panic sites: %s]\n", p.Pos(ci.Pos()), FnName(fn), FnName(cal), strings.Join(args, ", "), len(ps), trunc(ps[0].Desc, 60))
+				}
+			}
+		}
+		fmt.Println("total", n)
 		return
 	case "panics":
 		p, err := Load(nil, nil)
